@@ -1244,4 +1244,158 @@ theorem DecodePackedFixed32_refines (fuel : Nat) (hf : 11 ≤ fuel) (p : Bytes) 
         | panic => exact absurd hmm (decodeVarint_ok _).1
 
 
+/-! ## `DecodePackedBool` (a list of `bool`: any non-zero varint is `true`) -/
+
+theorem bne_zero (v : BitVec 64) : (v != 0#64) = (v.toNat != 0) := by
+  rw [bne_iff]
+  by_cases h : v.toNat = 0 <;> simp [h]
+
+abbrev PSB := Decoder_DecodePackedBool.St
+abbrev PRB := Decoder_DecodePackedBool.R
+
+/-- what follows the loop: the `nRead != l` test and the final return -/
+def tailB : PSB → Go.Out PSB PRB :=
+  Go.seq (fun s => if (s.nRead != s.l) then (fun s => .ret (([] : List Bool), (Go.Err.other "ErrInvalidPackedData")) s) s else Go.skip s)
+    (fun s => .ret (s.res, Go.Err.nil) s)
+
+def LB (fuel g : Nat) : PSB → Go.Out PSB PRB :=
+  Go.loop Decoder_DecodePackedBool.loop1.cond (Decoder_DecodePackedBool.loop1.body fuel) Decoder_DecodePackedBool.loop1.post g
+
+/-- the relation between a loop state of the translation and the arguments of the model's `packedLoop` -/
+structure RelB (p : Bytes) (l mode ks ke : BitVec 64) (nRead off : Nat) (acc : List Bool) (s : PSB) : Prop where
+  p : s.d_p = p
+  l : s.l = l
+  mode : s.d_mode = mode
+  ks : s.d_keyStart = ks
+  ke : s.d_keyEnd = ke
+  nRead : s.nRead.toNat = nRead
+  off : s.d_offset.toNat = off
+  res : s.res.map (fun b : Bool => b) = acc.reverse
+
+/-- what a finished run of loop + tailB amounts to -/
+def OutcomeB (p : Bytes) (mode ks ke : BitVec 64) (m : Nat × Res (List Bool)) (o : Go.Out PSB PRB) : Prop :=
+  match m with
+  | (off2, .ok vs) => ∃ R s', o = .ret (R, .nil) s' ∧ R.map (fun b : Bool => b) = vs ∧ s'.d_offset.toNat = off2 ∧
+      s'.d_p = p ∧ s'.d_mode = mode ∧ s'.d_keyStart = ks ∧ s'.d_keyEnd = ke
+  | (off2, .err) => ∃ R e s', o = .ret (R, e) s' ∧ e ≠ .nil ∧ s'.d_offset.toNat = off2 ∧
+      s'.d_p = p ∧ s'.d_mode = mode ∧ s'.d_keyStart = ks ∧ s'.d_keyEnd = ke
+  | (_, .panic) => False
+
+
+/-- **the loop of the source = the loop of the model**, by induction on the model's fuel -/
+theorem loop_eqB (fuel : Nat) (hf : 11 ≤ fuel) (p : Bytes) (l mode ks ke : BitVec 64) (hp : p.length < 2 ^ 62) :
+    ∀ (k nRead off : Nat) (acc : List Bool) (s : PSB) (g : Nat), RelB p l mode ks ke nRead off acc s →
+      off ≤ p.length → nRead ≤ off → p.length - off < k → p.length - off < g →
+      OutcomeB p mode ks ke (packedLoop elBool p l.toNat k nRead off acc) (Go.seq (LB fuel g) tailB s) := by
+  intro k
+  induction k with
+  | zero => intro nRead off acc s g hr ho hn hk hg; omega
+  | succ k ih =>
+    intro nRead off acc s g hr ho hn hk hg
+    obtain ⟨g', rfl⟩ : ∃ g', g = g' + 1 := ⟨g - 1, by omega⟩
+    have hp63 : p.length < 2 ^ 63 := by omega
+    have hcond : Decoder_DecodePackedBool.loop1.cond s = some (decide (nRead < l.toNat)) := by
+      simp [Decoder_DecodePackedBool.loop1.cond, ult_iff, hr.nRead, hr.l]
+    simp only [packedLoop, Go.seq, LB, Go.loop, hcond]
+    by_cases hlt : nRead < l.toNat
+    · simp only [hlt, decide_true, if_true]
+      -- one iteration
+      have heof : BitVec.sle (BitVec.ofNat 64 s.d_p.length) s.d_offset = decide (p.length ≤ off) := by
+        rw [hr.p, eof_test p s.d_offset hp63 (by rw [hr.off]; exact ho), hr.off]
+      by_cases he : p.length ≤ off
+      · have hge : off ≥ p.length := he
+        have hbody : Decoder_DecodePackedBool.loop1.body fuel s = .ret (([] : List Bool), Go.Err.unexpectedEOF) s := by
+          simp [Decoder_DecodePackedBool.loop1.body, Go.seq, Go.skip, heof, he]
+        simp only [hbody, hge, if_true, OutcomeB]
+        exact ⟨_, _, _, rfl, by simp, hr.off, hr.p, hr.mode, hr.ks, hr.ke⟩
+      · have hge : ¬ off ≥ p.length := he
+        have hle : s.d_offset.toNat ≤ s.d_p.length := by rw [hr.off, hr.p]; exact ho
+        obtain ⟨v, n, e, c, hd, hcase⟩ := call_varint fuel hf (p.drop off) (drop_len p _ hp63)
+        have hd' : DecodeVarint fuel (s.d_p.drop s.d_offset.toNat) = .ret (v, n, e) c := by rw [hr.p, hr.off]; exact hd
+        simp only [hge, if_false, sliceFrom, ho, if_true]
+        rcases hcase with ⟨hen, hm, hpos, hlen⟩ | ⟨hen, hm⟩
+        · subst hen
+          have hn0 : ¬ n.toNat = 0 := by omega
+          have hdl : (p.drop off).length = p.length - off := by simp
+          have hbody : Decoder_DecodePackedBool.loop1.body fuel s =
+              .next { s with v := v, n_1 := n, err_1 := Go.Err.nil, nRead := s.nRead + n, d_offset := s.d_offset + n, res := s.res ++ [(v != 0#64)] } := by
+            simp [Decoder_DecodePackedBool.loop1.body, Go.seq, Go.skip, heof, he, hle, hd', n_zero_iff, hn0]
+          simp only [hbody, Decoder_DecodePackedBool.loop1.post, Go.skip, elBool, Res.map, elVarint, nz, hm, hn0, if_false]
+          have hoff' : (s.d_offset + n).toNat = off + n.toNat := by rw [add_toNat s.d_offset n (by rw [hr.off]; omega), hr.off]
+          have hnr' : (s.nRead + n).toNat = nRead + n.toNat := by rw [add_toNat s.nRead n (by rw [hr.nRead]; omega), hr.nRead]
+          exact ih (nRead + n.toNat) (off + n.toNat) ((v.toNat != 0) :: acc) _ g'
+            ⟨hr.p, hr.l, hr.mode, hr.ks, hr.ke, hnr', hoff', by simp [hr.res, bne_zero]⟩ (by omega) (by omega) (by omega) (by omega)
+        · have hbody : ∃ e', e' ≠ Go.Err.nil ∧ Decoder_DecodePackedBool.loop1.body fuel s =
+              .ret (([] : List Bool), e') { s with v := v, n_1 := n, err_1 := e } := by
+            refine ⟨e, hen, ?_⟩
+            cases e with
+            | nil => exact absurd rfl hen
+            | invalidVarint | unexpectedEOF | overflow | other w =>
+              simp [Decoder_DecodePackedBool.loop1.body, Go.seq, Go.skip, heof, he, hle, hd']
+          obtain ⟨e', hne', hb⟩ := hbody
+          cases hmm : decodeVarint (p.drop off) with
+          | ok r => exact absurd hmm (hm r)
+          | err =>
+            simp only [hb, elBool, Res.map, elVarint, nz, hmm, OutcomeB]
+            exact ⟨_, _, _, rfl, hne', hr.off, hr.p, hr.mode, hr.ks, hr.ke⟩
+          | panic => exact absurd hmm (decodeVarint_ok _).1
+    · simp only [hlt, decide_false, Bool.false_eq_true, if_false, tailB, Go.seq, Go.skip]
+      have hbne : (s.nRead != s.l) = decide (nRead ≠ l.toNat) := by rw [bne_iff, hr.nRead, hr.l]
+      by_cases hne : nRead ≠ l.toNat
+      · simp only [hbne, hne, decide_true, if_true, ne_eq, not_false_eq_true, OutcomeB]
+        exact ⟨_, _, _, rfl, by simp, hr.off, hr.p, hr.mode, hr.ks, hr.ke⟩
+      · simp only [hbne, hne, decide_false, Bool.false_eq_true, if_false, ne_eq, OutcomeB]
+        exact ⟨_, _, rfl, by rw [hr.res], hr.off, hr.p, hr.mode, hr.ks, hr.ke⟩
+
+/-- **`(*Decoder).DecodePackedUint64` of the source refines `Dec.step .packedBool`** -/
+theorem DecodePackedBool_refines (fuel : Nat) (hf : 11 ≤ fuel) (p : Bytes) (off mode ks ke : BitVec 64) (fast : Bool)
+    (hp : p.length < 2 ^ 62) (hfl : p.length + 2 ≤ fuel) (hoff : off.toNat ≤ p.length) :
+    ∃ R e s, Decoder_DecodePackedBool fuel p off mode ks ke = .ret (R, e) s ∧
+      s.d_p = p ∧ s.d_mode = mode ∧ s.d_keyStart = ks ∧ s.d_keyEnd = ke ∧
+      (match ((decOf p off ks ke fast).step .packedBool) with
+       | (d', .ok (.bools vs), _) => e = .nil ∧ R.map (fun b : Bool => b) = vs ∧ s.d_offset.toNat = d'.off
+       | (d', .err, _) => e ≠ .nil ∧ s.d_offset.toNat = d'.off
+       | _ => False) := by
+  have hp63 : p.length < 2 ^ 63 := by omega
+  unfold Decoder_DecodePackedBool Decoder_DecodePackedBool.body
+  simp only [Go.seq, Go.skip, eof_test p off hp63 hoff, Dec.step, Dec.packed, decOf, Dec.len, sliceFrom]
+  by_cases heof : p.length ≤ off.toNat
+  · simp [heof]
+    exact ⟨_, _, _, ⟨⟨rfl, rfl⟩, rfl⟩, by simp⟩
+  · obtain ⟨l, n, e, c, hd, hcase⟩ := call_varint fuel hf (p.drop off.toNat) (drop_len p _ hp63)
+    simp only [heof, decide_false, Bool.false_eq_true, if_false, hoff, if_true, hd, ge_iff_le]
+    rcases hcase with ⟨he, hm, hpos, hle⟩ | ⟨he, hm⟩
+    · subst he
+      have hn0 : ¬ n.toNat = 0 := by omega
+      have hlen : (p.drop off.toNat).length = p.length - off.toNat := by simp
+      have hsum : (off + n).toNat = off.toNat + n.toNat := add_toNat off n (by omega)
+      simp only [elVarint, nz, hm, hn0, if_false, bne_self_eq_false, Bool.false_eq_true, n_zero_iff, decide_false]
+      have hL := loop_eqB fuel hf p l mode ks ke hp (p.length + 1) 0 (off.toNat + n.toNat) []
+        { d_p := p, d_offset := off + n, d_mode := mode, d_keyStart := ks, d_keyEnd := ke, l := l, n := n, packedDataStart := off + n }
+        fuel ⟨rfl, rfl, rfl, rfl, rfl, rfl, hsum, rfl⟩ (by omega) (by omega) (by omega) (by omega)
+      simp only [Go.seq, LB, tailB, Go.skip] at hL
+      cases hpl : packedLoop elBool p l.toNat (p.length + 1) 0 (off.toNat + n.toNat) [] with
+      | mk off2 r =>
+        rw [hpl] at hL
+        cases r with
+        | ok vs =>
+          simp only [OutcomeB] at hL
+          obtain ⟨R, s', ho, hR, h1, h2, h3, h4, h5⟩ := hL
+          rw [ho]
+          exact ⟨R, .nil, s', rfl, h2, h3, h4, h5, rfl, hR, h1⟩
+        | err =>
+          simp only [OutcomeB] at hL
+          obtain ⟨R, e', s', ho, hne, h1, h2, h3, h4, h5⟩ := hL
+          rw [ho]
+          exact ⟨R, e', s', rfl, h2, h3, h4, h5, hne, h1⟩
+        | panic => simp only [OutcomeB] at hL
+    · cases e with
+      | nil => exact absurd rfl he
+      | invalidVarint | unexpectedEOF | overflow | other w =>
+        cases hmm : decodeVarint (p.drop off.toNat) with
+        | ok r => exact absurd hmm (hm r)
+        | err => simp [elVarint, nz, hmm]; exact ⟨_, _, _, ⟨⟨rfl, rfl⟩, rfl⟩, by simp⟩
+        | panic => exact absurd hmm (decodeVarint_ok _).1
+
+
 end Csproto.Bridge.PackedFuncs
